@@ -5,7 +5,12 @@
  * the rest of the text; splice: cnt < 0 means the same, and a count that does not fit (C < 0 or C > len-I) is
  * refused.  Accepted calls: substr results are fresh, caller-owned and hold text[I, I+C); splice replaces
  * text[I, I+C) by the other text (ghost index vg_k over the whole result).  self is not written by substr*.
- * Behaviours: .empty / .nonempty; splice additionally .negcnt (negative count) and .other_empty. */
+ * Behaviours: .empty / .nonempty.  The accepted path of splice (malloc + 4 memcpy + realloc + free) is too large for
+ * one query; it is decomposed into units whose union is the whole contract for cnt >= 0:
+ * .refused  refused calls, all checks            .safety  accepted calls, ALL generic checks + frame + length + capacity
+ * .term / .head / .ins / .tail  accepted calls, one content clause each (generic checks are in .safety)
+ * .negcnt   negative count: acceptance and resulting length (content is covered by the other units' clauses)
+ * These units use the over-approximating memcpy/realloc models of env_str.h with only the instances they need. */
 
 /*@unit
 name: str_substr.empty
@@ -53,31 +58,72 @@ timeout: 200
 flags: --slice-formula
 */
 /*@unit
-name: str_splice.nonempty
-define: VP=str, VSTR_INST=0, VSTR_OWN_MEMCPY, VSTR_OWN_REALLOC, U_SPLICE, U_NONEMPTY, U_OTHER_NONEMPTY, U_POSCNT
+name: str_splice.refused
+define: VP=str, U_SPLICE, U_NONEMPTY, U_REFUSED, U_POSCNT
+src: str.c, obj.c
+enforce: spif_str_splice
+backend: sat,z3
+timeout: 200
+flags: --slice-formula
+*/
+/*@unit
+name: str_splice.safety
+define: VP=str, VSTR_INST=0, VSTR_OWN_MEMCPY, VSTR_OWN_REALLOC, U_SPLICE, U_NONEMPTY, U_ACCEPTED, U_POSCNT, U_ENS_CORE
+src: str.c, obj.c
+enforce: spif_str_splice
+backend: sat,z3
+timeout: 400
+flags: --slice-formula
+*/
+/*@unit
+name: str_splice.term
+define: VP=str, VSTR_INST=2, VSTR_OWN_MEMCPY, VSTR_OWN_REALLOC, U_SPLICE, U_NONEMPTY, U_ACCEPTED, U_POSCNT, U_ENS_TERM
 src: str.c, obj.c
 enforce: spif_str_splice
 backend: sat,z3
 timeout: 300
 flags: --slice-formula
+checks_off: --bounds-check --pointer-check --pointer-overflow-check --signed-overflow-check --conversion-check --div-by-zero-check --undefined-shift-check --pointer-primitive-check
+*/
+/*@unit
+name: str_splice.head
+define: VP=str, VSTR_INST=8, VSTR_OWN_MEMCPY, VSTR_OWN_REALLOC, U_SPLICE, U_NONEMPTY, U_ACCEPTED, U_POSCNT, U_VIEW_HEAD
+src: str.c, obj.c
+enforce: spif_str_splice
+backend: sat,z3
+timeout: 300
+flags: --slice-formula
+checks_off: --bounds-check --pointer-check --pointer-overflow-check --signed-overflow-check --conversion-check --div-by-zero-check --undefined-shift-check --pointer-primitive-check
+*/
+/*@unit
+name: str_splice.ins
+define: VP=str, VSTR_INST=24, VSTR_OWN_MEMCPY, VSTR_OWN_REALLOC, U_SPLICE, U_NONEMPTY, U_ACCEPTED, U_POSCNT, U_VIEW_INS
+src: str.c, obj.c
+enforce: spif_str_splice
+backend: sat,z3
+timeout: 300
+flags: --slice-formula
+checks_off: --bounds-check --pointer-check --pointer-overflow-check --signed-overflow-check --conversion-check --div-by-zero-check --undefined-shift-check --pointer-primitive-check
+*/
+/*@unit
+name: str_splice.tail
+define: VP=str, VCAP=255, VSTR_INST=63, U_ENS_CORE, U_ENS_TERM, U_VIEW_HEAD, U_VIEW_INS, VSTR_OWN_MEMCPY, VSTR_OWN_REALLOC, U_SPLICE, U_NONEMPTY, U_ACCEPTED, U_POSCNT, U_VIEW_TAIL
+src: str.c, obj.c
+enforce: spif_str_splice
+backend: sat,z3
+timeout: 300
+flags: --slice-formula
+checks_off: --bounds-check --pointer-check --pointer-overflow-check --signed-overflow-check --conversion-check --div-by-zero-check --undefined-shift-check --pointer-primitive-check
 */
 /*@unit
 name: str_splice.negcnt
-define: VP=str, VSTR_OWN_MEMCPY, VSTR_OWN_REALLOC, U_SPLICE, U_NONEMPTY, U_OTHER_NONEMPTY, U_NEGCNT
+define: VP=str, VSTR_INST=0, VSTR_OWN_MEMCPY, VSTR_OWN_REALLOC, U_SPLICE, U_NONEMPTY, U_NEGCNT, U_ENS_ACCEPT
 src: str.c, obj.c
 enforce: spif_str_splice
 backend: sat,z3
 timeout: 300
 flags: --slice-formula
-*/
-/*@unit
-name: str_splice.other_empty
-define: VP=str, VSTR_OWN_MEMCPY, VSTR_OWN_REALLOC, U_SPLICE, U_NONEMPTY, U_OTHER_EMPTY, U_POSCNT
-src: str.c, obj.c
-enforce: spif_str_splice
-backend: sat,z3
-timeout: 300
-flags: --slice-formula
+checks_off: --bounds-check --pointer-check --pointer-overflow-check --signed-overflow-check --conversion-check --div-by-zero-check --undefined-shift-check --pointer-primitive-check
 */
 /*@unit
 name: str_splice_from_ptr.empty
@@ -89,22 +135,72 @@ timeout: 200
 flags: --slice-formula
 */
 /*@unit
-name: str_splice_from_ptr.nonempty
-define: VP=str, VSTR_OWN_MEMCPY, VSTR_OWN_REALLOC, U_SPLICE_FROM_PTR, U_NONEMPTY, U_POSCNT
+name: str_splice_from_ptr.refused
+define: VP=str, U_SPLICE_FROM_PTR, U_NONEMPTY, U_REFUSED, U_POSCNT
 src: str.c, obj.c
 enforce: spif_str_splice_from_ptr
 backend: sat,z3
-timeout: 300
+timeout: 200
 flags: --slice-formula
 */
 /*@unit
-name: str_splice_from_ptr.negcnt
-define: VP=str, VSTR_OWN_MEMCPY, VSTR_OWN_REALLOC, U_SPLICE_FROM_PTR, U_NONEMPTY, U_NEGCNT
+name: str_splice_from_ptr.safety
+define: VP=str, VSTR_INST=0, VSTR_OWN_MEMCPY, VSTR_OWN_REALLOC, U_SPLICE_FROM_PTR, U_NONEMPTY, U_ACCEPTED, U_POSCNT, U_ENS_CORE
+src: str.c, obj.c
+enforce: spif_str_splice_from_ptr
+backend: sat,z3
+timeout: 400
+flags: --slice-formula
+*/
+/*@unit
+name: str_splice_from_ptr.term
+define: VP=str, VSTR_INST=2, VSTR_OWN_MEMCPY, VSTR_OWN_REALLOC, U_SPLICE_FROM_PTR, U_NONEMPTY, U_ACCEPTED, U_POSCNT, U_ENS_TERM
 src: str.c, obj.c
 enforce: spif_str_splice_from_ptr
 backend: sat,z3
 timeout: 300
 flags: --slice-formula
+checks_off: --bounds-check --pointer-check --pointer-overflow-check --signed-overflow-check --conversion-check --div-by-zero-check --undefined-shift-check --pointer-primitive-check
+*/
+/*@unit
+name: str_splice_from_ptr.head
+define: VP=str, VSTR_INST=8, VSTR_OWN_MEMCPY, VSTR_OWN_REALLOC, U_SPLICE_FROM_PTR, U_NONEMPTY, U_ACCEPTED, U_POSCNT, U_VIEW_HEAD
+src: str.c, obj.c
+enforce: spif_str_splice_from_ptr
+backend: sat,z3
+timeout: 300
+flags: --slice-formula
+checks_off: --bounds-check --pointer-check --pointer-overflow-check --signed-overflow-check --conversion-check --div-by-zero-check --undefined-shift-check --pointer-primitive-check
+*/
+/*@unit
+name: str_splice_from_ptr.ins
+define: VP=str, VSTR_INST=24, VSTR_OWN_MEMCPY, VSTR_OWN_REALLOC, U_SPLICE_FROM_PTR, U_NONEMPTY, U_ACCEPTED, U_POSCNT, U_VIEW_INS
+src: str.c, obj.c
+enforce: spif_str_splice_from_ptr
+backend: sat,z3
+timeout: 300
+flags: --slice-formula
+checks_off: --bounds-check --pointer-check --pointer-overflow-check --signed-overflow-check --conversion-check --div-by-zero-check --undefined-shift-check --pointer-primitive-check
+*/
+/*@unit
+name: str_splice_from_ptr.tail
+define: VP=str, VSTR_INST=32, VSTR_OWN_MEMCPY, VSTR_OWN_REALLOC, U_SPLICE_FROM_PTR, U_NONEMPTY, U_ACCEPTED, U_POSCNT, U_VIEW_TAIL
+src: str.c, obj.c
+enforce: spif_str_splice_from_ptr
+backend: sat,z3
+timeout: 300
+flags: --slice-formula
+checks_off: --bounds-check --pointer-check --pointer-overflow-check --signed-overflow-check --conversion-check --div-by-zero-check --undefined-shift-check --pointer-primitive-check
+*/
+/*@unit
+name: str_splice_from_ptr.negcnt
+define: VP=str, VSTR_INST=0, VSTR_OWN_MEMCPY, VSTR_OWN_REALLOC, U_SPLICE_FROM_PTR, U_NONEMPTY, U_NEGCNT, U_ENS_ACCEPT
+src: str.c, obj.c
+enforce: spif_str_splice_from_ptr
+backend: sat,z3
+timeout: 300
+flags: --slice-formula
+checks_off: --bounds-check --pointer-check --pointer-overflow-check --signed-overflow-check --conversion-check --div-by-zero-check --undefined-shift-check --pointer-primitive-check
 */
 /*@unit
 name: ustr_substr.empty
@@ -152,31 +248,72 @@ timeout: 200
 flags: --slice-formula
 */
 /*@unit
-name: ustr_splice.nonempty
-define: VP=ustr, VSTR_INST=0, VSTR_OWN_MEMCPY, VSTR_OWN_REALLOC, U_SPLICE, U_NONEMPTY, U_OTHER_NONEMPTY, U_POSCNT
+name: ustr_splice.refused
+define: VP=ustr, U_SPLICE, U_NONEMPTY, U_REFUSED, U_POSCNT
+src: ustr.c, obj.c
+enforce: spif_ustr_splice
+backend: sat,z3
+timeout: 200
+flags: --slice-formula
+*/
+/*@unit
+name: ustr_splice.safety
+define: VP=ustr, VSTR_INST=0, VSTR_OWN_MEMCPY, VSTR_OWN_REALLOC, U_SPLICE, U_NONEMPTY, U_ACCEPTED, U_POSCNT, U_ENS_CORE
+src: ustr.c, obj.c
+enforce: spif_ustr_splice
+backend: sat,z3
+timeout: 400
+flags: --slice-formula
+*/
+/*@unit
+name: ustr_splice.term
+define: VP=ustr, VSTR_INST=2, VSTR_OWN_MEMCPY, VSTR_OWN_REALLOC, U_SPLICE, U_NONEMPTY, U_ACCEPTED, U_POSCNT, U_ENS_TERM
 src: ustr.c, obj.c
 enforce: spif_ustr_splice
 backend: sat,z3
 timeout: 300
 flags: --slice-formula
+checks_off: --bounds-check --pointer-check --pointer-overflow-check --signed-overflow-check --conversion-check --div-by-zero-check --undefined-shift-check --pointer-primitive-check
+*/
+/*@unit
+name: ustr_splice.head
+define: VP=ustr, VSTR_INST=8, VSTR_OWN_MEMCPY, VSTR_OWN_REALLOC, U_SPLICE, U_NONEMPTY, U_ACCEPTED, U_POSCNT, U_VIEW_HEAD
+src: ustr.c, obj.c
+enforce: spif_ustr_splice
+backend: sat,z3
+timeout: 300
+flags: --slice-formula
+checks_off: --bounds-check --pointer-check --pointer-overflow-check --signed-overflow-check --conversion-check --div-by-zero-check --undefined-shift-check --pointer-primitive-check
+*/
+/*@unit
+name: ustr_splice.ins
+define: VP=ustr, VSTR_INST=24, VSTR_OWN_MEMCPY, VSTR_OWN_REALLOC, U_SPLICE, U_NONEMPTY, U_ACCEPTED, U_POSCNT, U_VIEW_INS
+src: ustr.c, obj.c
+enforce: spif_ustr_splice
+backend: sat,z3
+timeout: 300
+flags: --slice-formula
+checks_off: --bounds-check --pointer-check --pointer-overflow-check --signed-overflow-check --conversion-check --div-by-zero-check --undefined-shift-check --pointer-primitive-check
+*/
+/*@unit
+name: ustr_splice.tail
+define: VP=ustr, VCAP=255, VSTR_INST=63, U_ENS_CORE, U_ENS_TERM, U_VIEW_HEAD, U_VIEW_INS, VSTR_OWN_MEMCPY, VSTR_OWN_REALLOC, U_SPLICE, U_NONEMPTY, U_ACCEPTED, U_POSCNT, U_VIEW_TAIL
+src: ustr.c, obj.c
+enforce: spif_ustr_splice
+backend: sat,z3
+timeout: 300
+flags: --slice-formula
+checks_off: --bounds-check --pointer-check --pointer-overflow-check --signed-overflow-check --conversion-check --div-by-zero-check --undefined-shift-check --pointer-primitive-check
 */
 /*@unit
 name: ustr_splice.negcnt
-define: VP=ustr, VSTR_OWN_MEMCPY, VSTR_OWN_REALLOC, U_SPLICE, U_NONEMPTY, U_OTHER_NONEMPTY, U_NEGCNT
+define: VP=ustr, VSTR_INST=0, VSTR_OWN_MEMCPY, VSTR_OWN_REALLOC, U_SPLICE, U_NONEMPTY, U_NEGCNT, U_ENS_ACCEPT
 src: ustr.c, obj.c
 enforce: spif_ustr_splice
 backend: sat,z3
 timeout: 300
 flags: --slice-formula
-*/
-/*@unit
-name: ustr_splice.other_empty
-define: VP=ustr, VSTR_OWN_MEMCPY, VSTR_OWN_REALLOC, U_SPLICE, U_NONEMPTY, U_OTHER_EMPTY, U_POSCNT
-src: ustr.c, obj.c
-enforce: spif_ustr_splice
-backend: sat,z3
-timeout: 300
-flags: --slice-formula
+checks_off: --bounds-check --pointer-check --pointer-overflow-check --signed-overflow-check --conversion-check --div-by-zero-check --undefined-shift-check --pointer-primitive-check
 */
 /*@unit
 name: ustr_splice_from_ptr.empty
@@ -188,22 +325,72 @@ timeout: 200
 flags: --slice-formula
 */
 /*@unit
-name: ustr_splice_from_ptr.nonempty
-define: VP=ustr, VSTR_OWN_MEMCPY, VSTR_OWN_REALLOC, U_SPLICE_FROM_PTR, U_NONEMPTY, U_POSCNT
+name: ustr_splice_from_ptr.refused
+define: VP=ustr, U_SPLICE_FROM_PTR, U_NONEMPTY, U_REFUSED, U_POSCNT
 src: ustr.c, obj.c
 enforce: spif_ustr_splice_from_ptr
 backend: sat,z3
-timeout: 300
+timeout: 200
 flags: --slice-formula
 */
 /*@unit
-name: ustr_splice_from_ptr.negcnt
-define: VP=ustr, VSTR_OWN_MEMCPY, VSTR_OWN_REALLOC, U_SPLICE_FROM_PTR, U_NONEMPTY, U_NEGCNT
+name: ustr_splice_from_ptr.safety
+define: VP=ustr, VSTR_INST=0, VSTR_OWN_MEMCPY, VSTR_OWN_REALLOC, U_SPLICE_FROM_PTR, U_NONEMPTY, U_ACCEPTED, U_POSCNT, U_ENS_CORE
+src: ustr.c, obj.c
+enforce: spif_ustr_splice_from_ptr
+backend: sat,z3
+timeout: 400
+flags: --slice-formula
+*/
+/*@unit
+name: ustr_splice_from_ptr.term
+define: VP=ustr, VSTR_INST=2, VSTR_OWN_MEMCPY, VSTR_OWN_REALLOC, U_SPLICE_FROM_PTR, U_NONEMPTY, U_ACCEPTED, U_POSCNT, U_ENS_TERM
 src: ustr.c, obj.c
 enforce: spif_ustr_splice_from_ptr
 backend: sat,z3
 timeout: 300
 flags: --slice-formula
+checks_off: --bounds-check --pointer-check --pointer-overflow-check --signed-overflow-check --conversion-check --div-by-zero-check --undefined-shift-check --pointer-primitive-check
+*/
+/*@unit
+name: ustr_splice_from_ptr.head
+define: VP=ustr, VSTR_INST=8, VSTR_OWN_MEMCPY, VSTR_OWN_REALLOC, U_SPLICE_FROM_PTR, U_NONEMPTY, U_ACCEPTED, U_POSCNT, U_VIEW_HEAD
+src: ustr.c, obj.c
+enforce: spif_ustr_splice_from_ptr
+backend: sat,z3
+timeout: 300
+flags: --slice-formula
+checks_off: --bounds-check --pointer-check --pointer-overflow-check --signed-overflow-check --conversion-check --div-by-zero-check --undefined-shift-check --pointer-primitive-check
+*/
+/*@unit
+name: ustr_splice_from_ptr.ins
+define: VP=ustr, VSTR_INST=24, VSTR_OWN_MEMCPY, VSTR_OWN_REALLOC, U_SPLICE_FROM_PTR, U_NONEMPTY, U_ACCEPTED, U_POSCNT, U_VIEW_INS
+src: ustr.c, obj.c
+enforce: spif_ustr_splice_from_ptr
+backend: sat,z3
+timeout: 300
+flags: --slice-formula
+checks_off: --bounds-check --pointer-check --pointer-overflow-check --signed-overflow-check --conversion-check --div-by-zero-check --undefined-shift-check --pointer-primitive-check
+*/
+/*@unit
+name: ustr_splice_from_ptr.tail
+define: VP=ustr, VSTR_INST=32, VSTR_OWN_MEMCPY, VSTR_OWN_REALLOC, U_SPLICE_FROM_PTR, U_NONEMPTY, U_ACCEPTED, U_POSCNT, U_VIEW_TAIL
+src: ustr.c, obj.c
+enforce: spif_ustr_splice_from_ptr
+backend: sat,z3
+timeout: 300
+flags: --slice-formula
+checks_off: --bounds-check --pointer-check --pointer-overflow-check --signed-overflow-check --conversion-check --div-by-zero-check --undefined-shift-check --pointer-primitive-check
+*/
+/*@unit
+name: ustr_splice_from_ptr.negcnt
+define: VP=ustr, VSTR_INST=0, VSTR_OWN_MEMCPY, VSTR_OWN_REALLOC, U_SPLICE_FROM_PTR, U_NONEMPTY, U_NEGCNT, U_ENS_ACCEPT
+src: ustr.c, obj.c
+enforce: spif_ustr_splice_from_ptr
+backend: sat,z3
+timeout: 300
+flags: --slice-formula
+checks_off: --bounds-check --pointer-check --pointer-overflow-check --signed-overflow-check --conversion-check --div-by-zero-check --undefined-shift-check --pointer-primitive-check
 */
 #include "str.h"
 
@@ -300,28 +487,34 @@ __CPROVER_requires(cnt >= 0)
 #ifdef U_NEGCNT
 __CPROVER_requires(cnt < 0)
 #endif
-/* path behaviours (their union is the whole precondition): refused / accepted and the result fits the
- * reported capacity / accepted and the buffer must grow */
+/* path behaviours (their union is the whole precondition) */
 #ifdef U_REFUSED
 __CPROVER_requires(!SPL_OK(self->len, idx, cnt))
 #endif
-#ifdef U_FITS
-__CPROVER_requires(SPL_OK(self->len, idx, cnt) && self->size >= self->len + OLEN_PRE - SPL_C(self->len, idx, cnt) + 1)
-#endif
-#ifdef U_GROWS
-__CPROVER_requires(SPL_OK(self->len, idx, cnt) && self->size < self->len + OLEN_PRE - SPL_C(self->len, idx, cnt) + 1)
+#ifdef U_ACCEPTED
+__CPROVER_requires(SPL_OK(self->len, idx, cnt))
 #endif
 __CPROVER_assigns(SPL_ASSIGNS)
 __CPROVER_frees(self->s)
+#if !defined(U_ACCEPTED)
 /* refused: nothing changes */
 __CPROVER_ensures(SPL_OK(OL0, idx, cnt) || (R == FALSE && STR_UNCHANGED(self)))
-#ifdef U_NONEMPTY
+#if defined(U_NONEMPTY) && !defined(U_ENS_ACCEPT)
 __CPROVER_ensures(SPL_OK(OL0, idx, cnt) || !(vg_k < (size_t) OL0) || self->s[vg_k] == STR_OLD_AT(self, vg_k))
 __CPROVER_ensures(SPL_OK(OL0, idx, cnt) || self->s[OL0] == 0)
 #endif
+#endif
+#if !defined(U_REFUSED)
 /* accepted */
-__CPROVER_ensures(!SPL_OK(OL0, idx, cnt) || (R == TRUE && STR_NONEMPTY_POST(self)))
+#if !defined(U_ACCEPTED) || defined(U_ENS_CORE) || defined(U_ENS_ACCEPT)
+__CPROVER_ensures(!SPL_OK(OL0, idx, cnt) || R == TRUE)
 __CPROVER_ensures(!SPL_OK(OL0, idx, cnt) || self->len == OL0 + OLEN - SPL_C(OL0, idx, cnt))
+__CPROVER_ensures(!SPL_OK(OL0, idx, cnt) || (0 <= self->len && self->len < self->size && self->s != NULL &&
+                  __CPROVER_POINTER_OFFSET(self->s) == 0 && __CPROVER_rw_ok(self->s, (size_t) self->size)))
+#endif
+#if !defined(U_ACCEPTED) || defined(U_ENS_TERM)
+__CPROVER_ensures(!SPL_OK(OL0, idx, cnt) || self->s[self->len] == 0)
+#endif
 #if defined(U_NONEMPTY) && defined(U_VIEW_HEAD)
 __CPROVER_ensures(!SPL_OK(OL0, idx, cnt) || !(vg_k < (size_t) N_I(OL0, idx)) || self->s[vg_k] == STR_OLD_AT(self, vg_k))
 #endif
@@ -333,6 +526,7 @@ __CPROVER_ensures(!SPL_OK(OL0, idx, cnt) || !(vg_k < (size_t) OLEN) || self->s[(
 __CPROVER_ensures(!SPL_OK(OL0, idx, cnt) || !(vg_k < (size_t) OL0 && (size_t) (N_I(OL0, idx) + SPL_C(OL0, idx, cnt)) + vg_k < (size_t) OL0) ||
                   self->s[(size_t) self->len - 1 - vg_k] ==
                   __CPROVER_old(self->s[STR_KIDX(self, (size_t) self->len - 1 - STR_KIDX(self, vg_k))]))
+#endif
 #endif
 ;
 void harness(void)
